@@ -72,6 +72,9 @@ class Evt:
     def nums(self) -> Iterable[int]:
         return self._S(self._d["nums"])
 
+    def groups(self) -> Iterable[Iterable[int]]:
+        return self._S(self._S(g) for g in self._d.get("groups", []))
+
     def jets(self, name: str = "a", cut: float = 0.0) -> Iterable[Jet]:
         js = self._jets if name == "a" else list(reversed(self._jets))
         return self._S(j for j in js if j.pt() >= cut)
